@@ -761,6 +761,40 @@ def run_export(tier, seed):
                                   "base_only": base_only})
                 if len(base) >= 2:
                     nontriv.add(canon([[str(t) for t in base], base_only]))
+        # typesets ASSEMBLED by `+` / `+=` (in several orders of addition) are exported byte for byte like the directly
+        # constructed typeset of the same types
+        for names_ in (["Integer", "Float"], ["Float", "Integer"], ["Boolean", "Object"], ["Object", "Date", "DateTime"], ["DateTime", "Object", "Date"],
+                       ["Float", "Complex"], ["Integer", "Float", "Complex", "Object", "String"], ["String", "Object", "Float", "Boolean"],
+                       ["Object", "String", "URL", "Path", "UUID"]):
+            tl_ = [BYNAME[n_] for n_ in names_]
+            if not is_parent_closed({Generic} | set(tl_)):
+                continue
+            with warnings.catch_warnings():
+                warnings.simplefilter("ignore")
+                direct = VisionsTypeset({Generic} | set(tl_))
+                grown = VisionsTypeset({Generic})
+                ok_ = True
+                for t_ in tl_:
+                    try:
+                        grown = grown + t_
+                    except Exception:  # noqa  (a non-parent-closed intermediate result may raise)
+                        ok_ = False
+                        break
+            if not ok_ or set(grown.types) != set(direct.types):
+                continue
+            for base_only in (False, True):
+                f1, f2 = os.path.join(tmp, "d.dot"), os.path.join(tmp, "g.dot")
+                direct.output_graph(f1, base_only=base_only)
+                grown.output_graph(f2, base_only=base_only)
+                evals += 2
+                if open(f1, "rb").read() != open(f2, "rb").read():
+                    n1, e1_ = parse_dot(f1)
+                    n2, e2_ = parse_dot(f2)
+                    fails.append({"property": "C19", "signature": "export-of-assembled-typeset",
+                                  "what": "Generic + %s exports other DOT text than VisionsTypeset of the same types (base_only=%s): missing edges %s, extra %s"
+                                          % (" + ".join(names_), base_only, [e for e in e1_ if e not in e2_][:4], [e for e in e2_ if e not in e1_][:4])})
+                os.unlink(f1)
+                os.unlink(f2)
         # user-defined types whose relation CLASS and `inferential` flag disagree (the flag is what the documented
         # semantics and the traversal use: solid / base graph iff not inferential), exported in several supply orders
         from visions.relations import IdentityRelation, InferenceRelation
